@@ -1083,12 +1083,14 @@ func main() {
 	mon.Floor("cli:distboot:frac:0.5", 8)
 	mon.Floor("cli:distboot:no-seed", 8)
 	mon.Floor("cli:distboot:first-alignment-of-several", 15)
+	mon.Floor("long:sites>=120000", 8)
 	mon.Main("C17", []mon.Sub{
 		{Name: "witness", Quick: len(witnesses), Thorough: len(witnesses), Run: runWitness},
 		{Name: "tables", Quick: 7, Thorough: 7, Run: runTables},
 		{Name: "oracle", Quick: 420, Thorough: 4200, Run: runOracle},
 		{Name: "matrix", Quick: 8000, Thorough: 150000, Run: runMatrix},
 		{Name: "reinit", Quick: 600, Thorough: 10000, Run: runReinit},
+		{Name: "long", Quick: 10, Thorough: 96, Run: runLong},
 		{Name: "cli", Quick: 510, Thorough: 6000, Run: runCli},
 	})
 }
